@@ -806,7 +806,7 @@ def run(ctx, extra_cases=()):
     stats = process(ctx, list(extra_cases) + corpus_cases())
     done = 0
     while done < total:                      # batches keep the memory flat in the thorough tier
-        k = min(5000, total - done)
+        k = min(20000, total - done)
         st = process(ctx, gen_all(ctx, k))
         for key in ('bit-exact', 'rounded'):
             stats[key] += st[key]
